@@ -148,7 +148,7 @@ REG.add(Contract(
     },
     result_names=("res",),
     callees=("jaxley.solver_gate:save_exp",),
-    boxes=lambda a: {"x": (-300, 300)}, special={"x": [0, 1e-5, -1e-5]},
+    boxes=lambda a: {"x": (-300, 300)}, special={"x": [0, 1e-5, -1e-5]}, optional=True,
 ))
 
 REG.add(Contract(
@@ -162,7 +162,7 @@ REG.add(Contract(
     },
     result_names=("res",),
     callees=("jaxley.solver_gate:save_exp",),
-    boxes=lambda a: {"x": (-100, 100)}, special={"x": [0, 1e-6, -1e-6]},
+    boxes=lambda a: {"x": (-100, 100)}, special={"x": [0, 1e-6, -1e-6]}, optional=True,
 ))
 
 # ---- gates ------------------------------------------------------------------------------------------------
